@@ -85,6 +85,19 @@ EXTRA6 = "After the sixth wave every case also carries the process history it ne
 for _k in ("C01", "C06", "C10", "C14", "C18"):
     EXTRA[_k] = EXTRA[_k] + " " + EXTRA6
 EXTRA["C12"] = "Scripted chi2 sequences far outside the model's value alphabet (growth by 1e7 per iteration, collapse, 1e12 plateaus) are replayed against the documented rule for tol x max_iter x verbose; graphs with an edge subclass overriding calc_chi2 are included."
+EXTRA7 = {
+    "C03": "One edge object listed twice is a parallel edge.",
+    "C05": "Further variants: zero-lever-arm rotated offsets, a fixed landmark in the middle of the vertex list, information symmetric only up to round-off.",
+    "C06": "A unary user edge that works in place on pose.position is attached to every fixed vertex.",
+    "C09": "Sub-nanometre increments are compared at 1e-13 x scale; results of operations with a neutral operand must not alias the other operand.",
+    "C10": "The documented return type np.ndarray is required.",
+    "C11": "Heading increments of 5e-13 and matrix angles where inverse-trigonometric shortcuts are ill-conditioned are included.",
+    "C13": "Graphs exported as exactly 1 line and as 1000 / 1001 / 1002 lines; every case starts with an older unrelated export already at the path.",
+    "C14": "A custom tag met while no custom type is registered for this call (an earlier call registered one), a comment line through each loader entry point.",
+    "C15": "Writes into .position and identity() results are query operations.",
+}
+for _k, _v in EXTRA7.items():
+    EXTRA[_k] = EXTRA.get(_k, "") + " " + _v
 for _t in T:
     if _t["id"] in EXTRA:
         _t["text"] = _t["text"] + " " + EXTRA[_t["id"]]
